@@ -448,11 +448,9 @@ class Interp:
 
     # -- execution
     def _exec(self, fn, bb, env, pc, outs, trace, depth):
-        visited = set()
         while True:
-            if (bb in visited):
-                raise Unsupported("%s: loop through %s - only loop-free bodies are encoded" % (fn.name, bb))
-            visited.add(bb)
+            # loops are allowed when the models make them terminate (iteration over a container of concrete
+            # length); anything else hits the path-length cap below and is reported as an encoder error
             if len(trace) > 600:
                 raise Unsupported("%s: path longer than 600 blocks - loop?" % fn.name)
             blk = fn.blocks[bb]
@@ -532,7 +530,10 @@ class Interp:
                         self._assign(fn, dest, results[0][1], env)
                     bb = ret_bb
                     continue
-                for extra_pc, val, kind, msg in results:
+                arg_ops = split_top(argtxt) if argtxt.strip() else []
+                for r in results:
+                    extra_pc, val, kind, msg = r[:4]
+                    wb = r[4] if len(r) > 4 else None
                     if any(contradicts(pc, c) for c in extra_pc):
                         continue
                     if kind == "panic":
@@ -540,6 +541,16 @@ class Interp:
                         self._count()
                         continue
                     env2 = fork_env(env)
+                    if wb:
+                        for ev in wb.get("events", []):
+                            env2.setdefault("__events", []).append(ev)
+                        for i, newval in wb["writeback"]:
+                            if i in wb["refs"]:
+                                self.write_ref(wb["refs"][i], newval, env2)
+                            elif i < len(arg_ops):
+                                m2 = re.match(r"^(?:copy|move) (_\d+)$", arg_ops[i].strip())
+                                if m2:
+                                    env2[m2.group(1)] = newval
                     if dest:
                         self._assign(fn, dest, val, env2)
                     self._exec(fn, ret_bb, env2, pc + extra_pc, outs, trace, depth)
@@ -553,6 +564,10 @@ class Interp:
 
     def call_fn(self, target, args, depth=1):
         """run another MIR body on the given argument values; result in the multi-outcome call format"""
+        return [r[:4] for r in self.call_fn_full(target, args, depth)]
+
+    def call_fn_full(self, target, args, depth=1):
+        """as call_fn, returning outcomes also carry the callee's final parameter values and its events"""
         outs = []
         env = {}
         for (loc, ty), v in zip(target.args, args):
@@ -561,7 +576,8 @@ class Interp:
         res = []
         for o in outs:
             if o.kind == "return":
-                res.append((o.pc, o.value, "return", None))
+                finals = [o.env.get(loc) for (loc, ty) in target.args]
+                res.append((o.pc, o.value, "return", None, finals, list(o.events)))
             elif o.kind == "panic":
                 res.append((o.pc, None, "panic", o.msg))
         return res
@@ -590,13 +606,77 @@ class Interp:
             if re.search(pat, callee):
                 if depth > 6:
                     raise Unsupported("inline depth")
-                return self.call_fn(target, args, depth + 1)
+                return self.call_inlined(target, args, depth)
         target = self.auto_resolve(callee, args)
         if target is not None:
             if depth > 8:
                 raise Unsupported("inline depth")
-            return self.call_fn(target, args, depth + 1)
+            res = self.call_inlined(target, args, depth)
+            if any(re.search(p, callee) for p in getattr(self, "merge_calls", ())):
+                merged = self.merge_results(res)
+                if merged is not None:
+                    return merged
+            return res
         raise Unsupported("%s: call to %s has no model and is not in the inline set" % (fn.name, callee))
+
+    def call_inlined(self, target, args, depth):
+        """inline a crate function.  `&mut` arguments use value-result semantics (sound because a &mut is unique):
+        the referent is copied in, and the callee's final value of the parameter is written back by the caller."""
+        refs = {}
+        args2 = []
+        for i, a in enumerate(args):
+            if isinstance(a, (MutRef, ElemRef)):
+                refs[i] = a
+                args2.append(self.deref(a, self.cur_env))
+            else:
+                args2.append(a)
+        res = self.call_fn_full(target, args2, depth + 1)
+        out = []
+        for r in res:
+            if len(r) >= 5 and r[2] == "return":
+                writeback = [(i, r[4][i]) for i, (loc, ty) in enumerate(target.args)
+                             if ty.startswith("&mut ") and i < len(r[4]) and r[4][i] is not None]
+                out.append((r[0], r[1], r[2], r[3], {"refs": refs, "writeback": writeback, "events": r[5] if len(r) > 5 else []}))
+            else:
+                out.append(r[:4])
+        return out
+
+    def merge_results(self, res):
+        """join the outcomes of a call into ONE symbolic value (ite over the path conditions) when they are all
+        returns of a two-variant enum (Result / Option) with at most scalar payloads - keeps the caller's path
+        count linear when a many-armed `match` (e.g. a unit table) is called repeatedly"""
+        res = [r[:4] for r in res]
+        if not res or any(k != "return" for (_, _, k, _) in res):
+            return None
+        vals = [v for (_, v, _, _) in res]
+        if not all(isinstance(v, Enum) and re.match(r"^\d+$", v.discr.expr) for v in vals):
+            return None
+        ty, names = vals[0].ty, vals[0].names
+        if any(v.ty != ty for v in vals) or len(names) != 2:
+            return None
+        conds = [self.sem.and_(pc) if pc else "true" for (pc, _, _, _) in res]
+        discr = None
+        variants = {}
+        for idx, name in enumerate(names):
+            members = [(c, v) for c, v in zip(conds, vals) if int(v.discr.expr) == idx]
+            if not members:
+                continue
+            payloads = [v.variants[name].fields.get("0") for _, v in members]
+            if all(isinstance(p, SV) for p in payloads):
+                e = payloads[-1].expr
+                for (c, _), p in list(zip(members, payloads))[-2::-1]:
+                    e = "(ite %s %s %s)" % (c, p.expr, e)
+                variants[name] = Agg(ty + "::" + name, {"0": SV(payloads[0].sort, self.sem.define("Real" if payloads[0].sort in ("f64", "f32") else "Int", e, "m"))})
+            elif all(p is None for p in payloads):
+                variants[name] = Agg(ty + "::" + name, {})
+            else:
+                variants[name] = Agg(ty + "::" + name, {"0": Opaque("merged payload")})
+        first = [c for c, v in zip(conds, vals) if int(v.discr.expr) == 0]
+        d = "(ite (or %s) 0 1)" % " ".join(first) if first else "1"
+        if not [c for c, v in zip(conds, vals) if int(v.discr.expr) == 1]:
+            d = "0"
+        dname = self.sem.define("Int", d, "md") if not re.match(r"^\d+$", d) else d
+        return [(None, Enum(ty, SV("isize", dname), variants, names))]
 
     def auto_resolve(self, callee, args):
         """a call to another function of this crate that has exactly one candidate body in the dump (same final
@@ -743,7 +823,7 @@ class Interp:
             return self._place(fn, o[5:], env)
         if o.startswith("const "):
             return self._const(fn, o[6:].strip())
-        if "::" in o and not o.startswith(("(", "_", "*")):
+        if ("::" in o and not o.startswith(("(", "_", "*"))) or re.match(r"^[A-Za-z][A-Za-z0-9_]*$", o):
             return Opaque("fnitem:" + o)      # function item passed by value
         return self._place(fn, o, env)
 
